@@ -165,10 +165,22 @@ type c20Snap struct {
 	Other  map[string]string // filter.lfs.* of the other scope
 }
 
+// c20HooksDir: where Git looks for hooks in this case — .git/hooks, or the directory core.hooksPath names
+// (scope suffix "+hp": relative to the work tree, "+hpabs": absolute)
+func c20HooksDir(dir, scope string) string {
+	switch {
+	case strings.HasSuffix(scope, "+hpabs"):
+		return dir + "-abs-hooks"
+	case strings.HasSuffix(scope, "+hp"):
+		return filepath.Join(dir, "custom-hooks")
+	}
+	return filepath.Join(dir, ".git", "hooks")
+}
+
 func c20Snapshot(dir, cfgFile, scope string) c20Snap {
 	var s c20Snap
 	for _, h := range c20Hooks {
-		p := filepath.Join(dir, ".git", "hooks", h)
+		p := filepath.Join(c20HooksDir(dir, scope), h)
 		fi, err := os.Lstat(p)
 		if err != nil {
 			s.Hooks = append(s.Hooks, "absent")
@@ -185,8 +197,9 @@ func c20Snapshot(dir, cfgFile, scope string) c20Snap {
 		s.Bytes = append(s.Bytes, b)
 	}
 	s.Filter = map[string]string{}
+	global := strings.HasPrefix(scope, "global")
 	args := []string{"config", "--local", "--get-regexp", `^filter\.lfs\.`}
-	if scope == "global" {
+	if global {
 		args = []string{"config", "--file", cfgFile, "--get-regexp", `^filter\.lfs\.`}
 	}
 	out, _ := runIn(dir, []string{"GIT_CONFIG_GLOBAL=" + cfgFile}, "git", args...)
@@ -198,7 +211,7 @@ func c20Snapshot(dir, cfgFile, scope string) c20Snap {
 	}
 	s.Other = map[string]string{}
 	oargs := []string{"config", "--file", cfgFile, "--get-regexp", `^filter\.lfs\.`}
-	if scope == "global" {
+	if global {
 		oargs = []string{"config", "--local", "--get-regexp", `^filter\.lfs\.`}
 	}
 	out, _ = runIn(dir, []string{"GIT_CONFIG_GLOBAL=" + cfgFile}, "git", oargs...)
@@ -231,7 +244,7 @@ func c20(c *Ctx) {
 		n = 0
 	}
 	for i := 0; i < n; i++ {
-		cs := c20Case{Scope: Pick(r, []string{"global", "local"}), Filter: map[string]string{}}
+		cs := c20Case{Scope: Pick(r, []string{"global", "local"}) + Pick(r, []string{"", "", "", "+hp", "+hpabs"}), Filter: map[string]string{}}
 		for _, h := range c20Hooks {
 			cs.Hooks = append(cs.Hooks, genHookState(r, c, h))
 		}
@@ -271,11 +284,17 @@ func c20(c *Ctx) {
 		nc := 1 + r.Intn(4)
 		for k := 0; k < nc; k++ {
 			cmd := []string{Pick(r, []string{"install", "install", "update", "uninstall"})}
-			if cs.Scope == "local" && cmd[0] != "update" {
+			if strings.HasPrefix(cs.Scope, "local") && cmd[0] != "update" {
 				cmd = append(cmd, "--local")
 			}
 			if cmd[0] != "uninstall" && r.Chance(15) {
 				cmd = append(cmd, "--force")
+			}
+			if cmd[0] != "update" && r.Chance(10) {
+				cmd = append(cmd, "--skip-repo") // configuration only: no hook is looked at, let alone written
+			}
+			if cmd[0] == "install" && r.Chance(10) {
+				cmd = append(cmd, "--skip-smudge")
 			}
 			cs.Cmds = append(cs.Cmds, cmd)
 		}
@@ -326,8 +345,25 @@ func runC20Case(c *Ctx, ci int, cs c20Case) (mlines, mimpl []string) {
 		return
 	}
 	nontrivial := false
+	scope := strings.SplitN(cs.Scope, "+", 2)[0]
+	hooksDir := c20HooksDir(dir, cs.Scope)
+	decoy := []byte("#!/bin/sh\necho a hook in .git/hooks that Git no longer runs\n")
+	if hooksDir != filepath.Join(dir, ".git", "hooks") {
+		// core.hooksPath: hooks live elsewhere; whatever sits in .git/hooks is not git-lfs's business
+		os.MkdirAll(hooksDir, 0o755)
+		defer os.RemoveAll(hooksDir)
+		hp := "custom-hooks"
+		if strings.HasSuffix(cs.Scope, "+hpabs") {
+			hp = hooksDir
+		}
+		runIn(dir, env, "git", "config", "--local", "core.hooksPath", hp)
+		for _, h := range c20Hooks {
+			os.WriteFile(filepath.Join(dir, ".git", "hooks", h), decoy, 0o755)
+		}
+		c.R.Count("case.core-hookspath")
+	}
 	for i, h := range cs.Hooks {
-		p := filepath.Join(dir, ".git", "hooks", c20Hooks[i])
+		p := filepath.Join(hooksDir, c20Hooks[i])
 		os.Remove(p)
 		if h.Kind == "symlink-user" {
 			tdir := filepath.Join(dir, ".git", "user-hooks")
@@ -345,7 +381,7 @@ func runC20Case(c *Ctx, ci int, cs c20Case) (mlines, mimpl []string) {
 		}
 	}
 	for k, v := range cs.Filter {
-		if cs.Scope == "global" {
+		if scope == "global" {
 			runIn(dir, env, "git", "config", "--file", cfgFile, k, v)
 		} else {
 			runIn(dir, env, "git", "config", "--local", k, v)
@@ -355,7 +391,7 @@ func runC20Case(c *Ctx, ci int, cs c20Case) (mlines, mimpl []string) {
 		}
 	}
 	for k, v := range cs.Other {
-		if cs.Scope == "global" {
+		if scope == "global" {
 			runIn(dir, env, "git", "config", "--local", k, v)
 		} else {
 			runIn(dir, env, "git", "config", "--file", cfgFile, k, v)
@@ -382,10 +418,26 @@ func runC20Case(c *Ctx, ci int, cs c20Case) (mlines, mimpl []string) {
 		out, code := runIn(dir, env, c.Lfs, cmd...)
 		after := c20Snapshot(dir, cfgFile, cs.Scope)
 		c.R.Count("cmd." + cmd[0])
-		force := false
+		force, skipRepo := false, false
 		for _, a := range cmd {
 			if a == "--force" {
 				force = true
+			}
+			if a == "--skip-repo" {
+				skipRepo = true
+			}
+		}
+		if skipRepo {
+			c.R.Count("cmd.skip-repo")
+			if fmt.Sprint(before.Hooks) != fmt.Sprint(after.Hooks) {
+				fail(fmt.Sprintf("`git lfs %s` touched hook files although --skip-repo was given", strings.Join(cmd, " ")), fmt.Sprint(before.Hooks)+" -> "+fmt.Sprint(after.Hooks))
+			}
+		}
+		if hooksDir != filepath.Join(dir, ".git", "hooks") {
+			for _, h := range c20Hooks {
+				if b, err := os.ReadFile(filepath.Join(dir, ".git", "hooks", h)); err != nil || !bytes.Equal(b, decoy) {
+					fail(fmt.Sprintf("`git lfs %s` changed a file in .git/hooks although core.hooksPath names another directory", strings.Join(cmd, " ")), h)
+				}
 			}
 		}
 		// ---- the property, from the harness's knowledge of what it planted
@@ -419,7 +471,7 @@ func runC20Case(c *Ctx, ci int, cs c20Case) (mlines, mimpl []string) {
 			}
 		}
 		// first conflicting user hook must be reported by install/update
-		if !force && (cmd[0] == "update" || (cmd[0] == "install" && code == 0)) {
+		if !force && !skipRepo && (cmd[0] == "update" || (cmd[0] == "install" && code == 0)) {
 			for i := range c20Hooks {
 				if userOwned[i] && before.Hooks[i] != "absent" {
 					if !strings.Contains(out, "Hook already exists") {
@@ -452,6 +504,9 @@ func runC20Case(c *Ctx, ci int, cs c20Case) (mlines, mimpl []string) {
 		// ---- model line: the four hook files through installAll / uninstallAll
 		if cmd[0] == "install" && code != 0 && !strings.Contains(out, "Hook already exists") {
 			continue // the filter settings conflicted: hooks are not touched at all (checked above)
+		}
+		if skipRepo {
+			continue // no hook operation to compare
 		}
 		var fs []string
 		for i := range c20Hooks {
